@@ -524,6 +524,18 @@ func (e *Exchange) abortLocked(err error) {
 	e.setOverFlag()
 }
 
+// PostSeen: request-body bytes that arrived after the handler was done.
+//
+//go:norace
+//go:noinline
+func (e *Exchange) PostSeen() int { return e.postSeen }
+
+// UploadStopped: the HTTP/2 transport stopped uploading at a status above 299.
+//
+//go:norace
+//go:noinline
+func (e *Exchange) UploadStopped() bool { return e.uploadStopped }
+
 // Abort tears the exchange down the way a stream reset / connection close
 // does.
 func (e *Exchange) Abort(err error) {
